@@ -8,8 +8,8 @@ from checks import common
 
 META = {
     "technique": "Lean 4 proof (invariant by induction over every operation history, loop invariants for RemoveModel/Reset/Trim) + exact differential correspondence of full internal state dumps with the real mjCCache + transition oracle on the real class + syntactic lock-discipline scan",
-    "text": "mjCCache (Insert, PopulateData, HasAsset, DeleteAsset, RemoveModel, Reset(model), Reset(), SetCapacity/Trim) is modelled as an executable Lean state machine with size_t wrap-around on byte counts. Proved for every operation history from the empty cache (byte counts and capacities < 2^63): size = sum of held asset sizes, size <= capacity, asset ids unique, insertion numbers unique, models_ and per-asset reference sets mutually consistent, no undefined behaviour (empty-queue dereference / dangling asset pointer) is reached; a lookup hit returns exactly the data of the most recent storing insert of that id and only when the resource timestamp equals the cached one; Trim evicts a prefix of the (access count, insertion number) order and stops as soon as the size fits; RemoveModel keeps every asset that another model still references (with unchanged data) and drops the others. The hand-written model is tied to the tree by replaying the same op lines through the real class (linked from the from-source build) and comparing complete canonical state dumps (size, capacity, counter, every asset field, priority-queue order, model tables) exactly: exhaustive histories over 2 models x 3 ids x 3 sizes x 2 timestamps and seeded random long histories. Concurrency: proved for sequential histories only; a scan of user_cache.{h,cc} checks that every public method holds the single std::mutex for its whole body (lock_guard first statement, private helpers lock-free and only reachable from members), so concurrent histories linearise in lock-acquisition order to the sequential model; a multi-threaded stress run checks the final state against the invariant.",
-    "note": "entries_ (the std::set priority queue) is not stored in the model: it is represented by the asset list ordered by (access, insertNum); its agreement with lookup_ is covered by the correspondence of the dumped queue order and pointer-liveness checks in the harness, not by a theorem. Asset pointers are represented by ids. Counters insert_num_/access_count_ are unbounded naturals in the model. Linearisability rests on the syntactic lock scan plus the C++ memory model, not on a Lean theorem; the lifetime of the string pointer returned by HasAsset after the lock is released is outside the model. The resource `modified` callback is provider-defined: modelled for a provider that compares timestamps and for a provider-less resource (always modified).",
+    "text": "mjCCache (Insert, PopulateData, HasAsset, DeleteAsset, RemoveModel, Reset(model), Reset(), SetCapacity/Trim) is modelled as an executable Lean state machine with size_t wrap-around on byte counts. Proved for every operation history from the empty cache (byte counts and capacities < 2^63): size = sum of held asset sizes, size <= capacity, asset ids unique, insertion numbers unique, models_ and per-asset reference sets mutually consistent, no undefined behaviour (empty-queue dereference / dangling asset pointer) is reached; a lookup hit returns exactly the data of the most recent storing insert of that id and only when the resource timestamp equals the cached one; Trim evicts a prefix of the (access count, insertion number) order and stops as soon as the size fits; RemoveModel keeps every asset that another model still references (with unchanged data) and drops the others. The hand-written model is tied to the tree by replaying the same op lines through the real class (linked from the from-source build) and comparing complete canonical state dumps (size, capacity, counter, every asset field, priority-queue order, model tables) exactly: exhaustive histories over 2 models x 3 ids x 3 sizes x 2 timestamps (full alphabet to length 2/3, sub-alphabets and two fixed eviction/sharing alphabets to length 5/6) and seeded random long histories; an oracle evaluates the property predicates on every transition of the real class alone (size = recomputed sum, size <= capacity, queue order, cross references, lookup results against the last storing insert, minimal-prefix eviction, survival of shared assets). Concurrency: proved for sequential histories only; a scan of user_cache.{h,cc} checks that every public method holds the single std::mutex for its whole body (lock_guard first statement, private helpers lock-free and only reachable from members), so concurrent histories linearise in lock-acquisition order to the sequential model; a multi-threaded stress run checks the final state against the invariant and every concurrent hit against the version asked for (thorough tier also replays the random streams on the address/UB-sanitizer build).",
+    "note": "entries_ (the std::set priority queue) is not stored in the model: it is represented by the asset list ordered by (access, insertNum); its agreement with lookup_ is covered by the correspondence of the dumped queue order and pointer-liveness checks in the harness, not by a theorem. Asset pointers are represented by ids; sets are duplicate-free lists (proved for the per-model sets; for references_ and the key list of models_ covered by the dump comparison only). Counters insert_num_/access_count_ are unbounded naturals in the model. Linearisability rests on the syntactic lock scan plus the C++ memory model, not on a Lean theorem; the lifetime of the string pointer returned by HasAsset after the lock is released is outside the model. The resource `modified` callback is provider-defined: modelled for a provider that compares timestamps and for a provider-less resource (always modified).",
 }
 
 P = "MjProof.C38."
@@ -93,8 +93,6 @@ def random_op(rng, nm, ni, sizes, tss, capmax, coherent):
 
 def gen_histories(ctx, exhaustive=True):
     """Returns list of (stream, coherent, [lines]) ; every history starts with `new CAP`."""
-    rng = ctx.rng
-    thorough = ctx.tier == "thorough"
     hs = []
     scopes = []
     if exhaustive:
@@ -115,7 +113,7 @@ def gen_exhaustive(ctx, hs, scopes):
     scopes.append("all %d^%d histories of length %d over the full alphabet (2 models x 3 ids x 3 sizes x 2 timestamps inserts, "
                   "lookups, deletes, model removals/resets, clear, 3 capacities), capacity 6" % (len(full), L, L))
     # (b) exhaustive longer histories over random sub-alphabets (always a few inserts sharing ids, a lookup, a removal)
-    nsub = 8 if thorough else 3
+    nsub = 4 if thorough else 3
     L2 = 6 if thorough else 5
     K = 6
     for s in range(nsub):
@@ -134,8 +132,15 @@ def gen_exhaustive(ctx, hs, scopes):
                 sub.append(o)
         cap = rng.choice((4, 6, 8, 9))
         for h in itertools.product(sub, repeat=L2):
-            hs.append(("exh-sub", coherent, ["new %d" % cap] + list(h)))
+            hs.append(("exh-sub%d" % s, coherent, ["new %d" % cap] + list(h)))
         scopes.append("all %d^%d histories over sub-alphabet %s, capacity %d" % (K, L2, sub, cap))
+    # (b') fixed alphabets aimed at the eviction order and at assets shared between models
+    evict = ["ins 0 0 0 0 1", "ins 0 1 0 1000 3", "ins 1 2 0 2000 1", "pop 0 0", "pop 1 0", "cap 2", "cap 6"]
+    share = ["ins 0 0 0 0 1", "ins 1 0 0 0 1", "ins 1 0 1 1 3", "ins 0 1 0 1000 3", "rm 0", "rm 1", "rst 1", "del 0"]
+    for name, al, L3 in (("exh-evict", evict, 6 if thorough else 5), ("exh-share", share, 5)):
+        for h in itertools.product(al, repeat=L3):
+            hs.append((name, True, ["new 6"] + list(h)))
+        scopes.append("all %d^%d histories over the fixed alphabet %s, capacity 6" % (len(al), L3, al))
 
 
 def gen_random(ctx, hs):
@@ -273,6 +278,8 @@ def check_transition(w, res, pre, post, shadow, coherent):
     if op == "ins":
         m, i, ts, d, sz = a
         if res == "0":
+            if pre["size"] - (A[i]["size"] if i in A else 0) + sz <= pre["cap"]:
+                return "Insert rejected an asset that fits into the capacity"
             return None if strip_state(pre) == strip_state(post) else "rejected Insert changed the cache"
         if res != "1":
             return "Insert returned neither true nor false"
@@ -482,16 +489,25 @@ def run_oracle(ctx, impl, hs, label, limit=5):
     lines = [l for _, _, h in hs for l in h]
     rc, outs, err = ctx.run_lines([impl], lines)
     nfail = 0
-    if rc != 0 or len(outs) != len(lines):
-        ctx.oracle_failure("c38:crash", "cache harness crashed or stopped early (rc=%s) in %s" % (rc, label),
-                           {"after_outputs": len(outs), "line": lines[min(len(outs), len(lines) - 1)],
-                            "history_tail": lines[max(0, len(outs) - 12):len(outs) + 1], "stderr": err[-400:]})
-        return lines, outs, 1
+    crashed = rc != 0 or len(outs) != len(lines)
     pos = 0
     for stream, coherent, h in hs:
         o = outs[pos:pos + len(h)]
+        if len(o) < len(h):
+            # the implementation died inside this history: report it with the exact history, after the
+            # predicates have been evaluated on everything it printed before
+            bad = oracle_history(h[:len(o)], o, coherent)
+            if bad is None:
+                k = len(o)
+                ctx.oracle_failure("c38:crash", "the cache crashed or stopped (rc=%s) while executing an operation" % rc,
+                                   {"stream": stream, "history": h[:k + 1], "failing_op": h[min(k, len(h) - 1)],
+                                    "previous_output": o[-1] if o else None, "stderr": err[-400:],
+                                    "replay": "printf '%s\\n' | <c38_cache harness>" % "\\n".join(h[:k + 1])})
+                nfail += 1
+                break
+        else:
+            bad = oracle_history(h, o, coherent)
         pos += len(h)
-        bad = oracle_history(h, o, coherent)
         if bad:
             nfail += 1
             if nfail <= limit:
@@ -500,6 +516,12 @@ def run_oracle(ctx, impl, hs, label, limit=5):
                                    {"stream": stream, "history": h[:k + 1], "failing_op": h[k], "impl_output": o[k],
                                     "previous_output": o[k - 1] if k else None,
                                     "replay": "printf '%s\\n' | <c38_cache harness>" % "\\n".join(h[:k + 1])})
+        if len(o) < len(h):
+            break
+    if crashed and nfail == 0:
+        ctx.oracle_failure("c38:crash", "cache harness crashed or stopped early (rc=%s) in %s" % (rc, label),
+                           {"after_outputs": len(outs), "stderr": err[-400:]})
+        nfail = 1
     return lines, outs, nfail
 
 
@@ -515,20 +537,48 @@ def run(ctx):
     if not (drv and impl):
         return
     hs = gen_histories(ctx)
-    lines, outs, nfail = run_oracle(ctx, impl, hs, "main streams")
+    # one pass per stream (keeps memory bounded): oracle on the implementation alone, then the differential
+    groups = {}
+    for h in hs:
+        groups.setdefault(h[0], []).append(h)
+    keyf = make_keyf()
+    nops = nfail = 0
+    for name, g in groups.items():
+        lines, outs, nf = run_oracle(ctx, impl, g, name)
+        nops += len(lines)
+        nfail += nf
+        ctx.differential("mjCCache state dumps vs Lean model, stream %s" % name, [drv], [impl], lines, keyf=keyf)
+        if len(outs) == len(lines) and name in ("exh-evict", "random"):
+            # a real case from this run in which SetCapacity evicted something
+            k = next((j for j, l in enumerate(lines) if j > 50 and l.startswith("cap")
+                      and outs[j - 1].split(" | ")[2] != outs[j].split(" | ")[2]), None)
+            if k is not None:
+                ctx.sample({"stream": name, "op": lines[k], "state_before": outs[k - 1], "model_and_impl_output": outs[k]})
+    if ctx.tier == "thorough":
+        # address/UB-sanitizer build of the tree on the random and sharing streams: no memory error, same outputs
+        asan = ctx.harness("harness/cc/c38_cache.cc", "c38_cache", variant="asan")
+        if asan:
+            g = groups.get("random", []) + groups.get("exh-share", [])
+            lines = [l for _, _, h in g for l in h]
+            env = {"ASAN_OPTIONS": "detect_leaks=0:abort_on_error=0", "UBSAN_OPTIONS": "print_stacktrace=1"}
+            rc_a, out_a, err_a = ctx.run_lines([asan], lines, env=env)
+            rc_s, out_s, _ = ctx.run_lines([impl], lines)
+            if rc_a != 0 or "ERROR: AddressSanitizer" in err_a or "runtime error" in err_a:
+                k = min(len(out_a), len(lines) - 1)
+                st = max(j for j in range(k + 1) if lines[j].startswith("new"))
+                ctx.oracle_failure("c38:sanitizer", "memory error / undefined behaviour reported by the sanitizer build",
+                                   {"history": lines[st:k + 1], "failing_op": lines[k], "report": err_a[:1500]})
+            ctx.oblige("sanitizer build prints the same states as the optimised build (%d ops)" % len(lines), "correspondence",
+                       rc_a == 0 and out_a == out_s, "rc=%d first difference at %s" % (
+                           rc_a, next((j for j, (x, y) in enumerate(zip(out_a, out_s)) if x != y), None)))
+            ctx.extra["sanitizer_ops"] = len(lines)
     ctx.extra["histories"] = len(hs)
-    ctx.extra["oracle_checked_ops"] = len(lines)
+    ctx.extra["histories_per_stream"] = {k: len(v) for k, v in groups.items()}
+    ctx.extra["oracle_checked_ops"] = nops
     ctx.extra["oracle_failing_histories"] = nfail
-    ctx.differential("mjCCache state dumps vs Lean model (exhaustive + random + near-2^63 byte counts)", [drv], [impl], lines,
-                     keyf=make_keyf())
     wl = gen_wrap(ctx) + MALFORMED
     ctx.differential("size_t wrap-around byte counts and malformed ops (outside the proved precondition; model exactness only)",
-                     [drv], [impl], wl, keyf=make_keyf())
-    if len(outs) == len(lines):
-        k = next((j for j, l in enumerate(lines) if l.startswith("cap") and "entries: " in outs[j]), 1)
-        ctx.sample({"op": lines[k], "previous": outs[k - 1], "model_and_impl_output": outs[k]})
-        k = len(lines) - 5
-        ctx.sample({"op": lines[k], "model_and_impl_output": outs[k]})
+                     [drv], [impl], wl, keyf=keyf)
     # multi-threaded stress: final state must satisfy the invariant, every hit must have returned the right version
     runs = [(8, 40000, 12), (16, 20000, 7), (4, 100000, 20)] if ctx.tier == "thorough" else [(4, 6000, 12), (8, 3000, 7)]
     sres = []
